@@ -56,7 +56,7 @@ func JSONExpressible(e *Expr) bool {
 		return false
 	}
 	switch e.K {
-	case "str", "num", "bool", "null", "ref":
+	case "str", "num", "bool", "null", "ref", "type":
 		return true
 	case "tmpl":
 		for _, a := range e.A {
@@ -98,6 +98,8 @@ func jsonExpr(e *Expr) any {
 		return nil
 	case "ref":
 		return "${" + e.S + "}"
+	case "type":
+		return e.S // type expressions are written as strings in JSON
 	case "tmpl":
 		var b strings.Builder
 		for _, a := range e.A {
